@@ -75,6 +75,14 @@ class C06(Property):
                    f"64,64,2500,{rng.choice([2, 6])},0,C|96:160|160:32|224:160|288:64,1,{rng.choice([0, 200, 90])}",
                    "192,64,3000,1,0,0:0:0:0:", f"100,100,3500,2,0,{rng.choice(['B|150:150|200:100', 'P|150:150|200:100', 'L|200:100'])},2,120", ""]
             cases.append(Case("c06 " + " ".join(hexs(l.encode()) for l in ls), corr=False, tags=("excursion-between-sections",)))
+        # a bracketed line that is no recognised header, inside a section (it goes to that section's parser like any other line; the list
+        # sections reject it): the lines after it still belong to the section (seed C06-q: the rest of the section skipped as an "unknown section")
+        for _ in range(150 if tier == "quick" else 4000):
+            ls = gen_map(rng, hostile=rng.choice([0.0, 0.1]), chronological=True)
+            body = [i for i, l in enumerate(ls) if l and not l.startswith("[") and not l.startswith("osu file format")]
+            for i in sorted(rng.sample(body, min(len(body), rng.randint(1, 3))), reverse=True):
+                ls.insert(i, rng.choice(["[Fonts]", "[Storyboard]", "[x]", "[]", "[1,2,3]", "[Colors]", "[hitobjects]", "[General] ", "[Fonts] // c", "[[Events]]"]))
+            cases.append(Case("c06 " + " ".join(hexs(l.encode()) for l in ls), corr=False, tags=("bracketed-line-inside-section",)))
         for f in bundled_files()[: (3 if tier == "quick" else 100)]:
             ls = open(f, "rb").read().decode("utf-8", "replace").replace("\r", "").split("\n")
             for _ in range(2 if tier == "quick" else 10):
